@@ -108,13 +108,6 @@ func (cb *CircuitBreaker) Execute(fn func() error) error {
 		return err
 	}
 
-	// Increment request count for half-open state
-	cb.mutex.Lock()
-	if cb.state == StateHalfOpen {
-		cb.requestCount++
-	}
-	cb.mutex.Unlock()
-
 	defer func() {
 		if r := recover(); r != nil {
 			cb.afterRequest(false)
@@ -166,38 +159,71 @@ func (cb *CircuitBreaker) beforeRequest() error {
 		if canRetry {
 			cb.mutex.Lock()
 			// Double-check state hasn't changed
+			var notify func()
 			if cb.state == StateOpen && cb.nextAttempt.Before(now) {
-				cb.setState(StateHalfOpen)
+				notify = cb.setState(StateHalfOpen)
 				cb.requestCount = 0
 				cb.successCount = 0
 			}
+			// Admit (and count) this request in the same critical section as the check
+			err := cb.admitLocked()
 			cb.mutex.Unlock()
-			return nil
+			if notify != nil {
+				notify()
+			}
+			return err
 		}
 		return ErrCircuitBreakerOpen
 	}
 
-	// HalfOpen state: check request limit
+	// HalfOpen state: check the request limit and count the trial atomically
 	if state == StateHalfOpen {
-		atLimit := cb.requestCount >= cb.maxRequests
 		cb.mutex.RUnlock()
 
-		if atLimit {
-			return ErrTooManyRequests
-		}
-		return nil
+		cb.mutex.Lock()
+		err := cb.admitLocked()
+		cb.mutex.Unlock()
+		return err
 	}
 
 	cb.mutex.RUnlock()
 	return ErrCircuitBreakerOpen
 }
 
+// admitLocked decides whether the calling request may proceed in the current state and, in
+// half-open state, counts it as a trial request. The caller holds the write lock.
+func (cb *CircuitBreaker) admitLocked() error {
+	switch cb.state {
+	case StateClosed:
+		return nil
+	case StateHalfOpen:
+		if cb.requestCount >= cb.maxRequests {
+			return ErrTooManyRequests
+		}
+		cb.requestCount++
+		return nil
+	default:
+		return ErrCircuitBreakerOpen
+	}
+}
+
 // afterRequest updates the circuit breaker state after a request
 func (cb *CircuitBreaker) afterRequest(success bool) {
 	cb.mutex.Lock()
-	defer cb.mutex.Unlock()
+	notify := cb.recordResultLocked(success)
+	cb.mutex.Unlock()
 
+	// State-change notifications run without the lock so that a callback may use the breaker
+	if notify != nil {
+		notify()
+	}
+}
+
+// recordResultLocked applies the outcome of a request. The caller holds the write lock. It returns
+// the pending state-change notification, if any.
+func (cb *CircuitBreaker) recordResultLocked(success bool) func() {
 	now := time.Now()
+	var notify func()
 
 	if success {
 		cb.lastSuccessTime = now
@@ -207,7 +233,7 @@ func (cb *CircuitBreaker) afterRequest(success bool) {
 		case StateHalfOpen:
 			cb.successCount++
 			if cb.successCount >= cb.successThreshold {
-				cb.setState(StateClosed)
+				notify = cb.setState(StateClosed)
 				cb.failureCount = 0
 			}
 		}
@@ -218,28 +244,32 @@ func (cb *CircuitBreaker) afterRequest(success bool) {
 		switch cb.state {
 		case StateClosed:
 			if cb.failureCount >= cb.failureThreshold {
-				cb.setState(StateOpen)
+				notify = cb.setState(StateOpen)
 				cb.nextAttempt = now.Add(cb.timeout)
 			}
 		case StateHalfOpen:
-			cb.setState(StateOpen)
+			notify = cb.setState(StateOpen)
 			cb.nextAttempt = now.Add(cb.timeout)
 		}
 	}
+	return notify
 }
 
-// setState changes the circuit breaker state and calls the callback
-func (cb *CircuitBreaker) setState(state State) {
+// setState changes the circuit breaker state. The caller holds the write lock. It returns the
+// state-change notification to run after the lock has been released (nil if there is none).
+func (cb *CircuitBreaker) setState(state State) func() {
 	if cb.state == state {
-		return
+		return nil
 	}
 
 	prev := cb.state
 	cb.state = state
 
-	if cb.onStateChange != nil {
-		cb.onStateChange(cb.name, prev, state)
+	if cb.onStateChange == nil {
+		return nil
 	}
+	name, onStateChange := cb.name, cb.onStateChange
+	return func() { onStateChange(name, prev, state) }
 }
 
 // State returns the current state of the circuit breaker
